@@ -102,9 +102,18 @@ SamplesOf(c, d) ==
   THEN <<BootOb(c, d), SubsampleRows(Source, c.byR, Ridx(c, d)), SubsamplePats(Source, c.byP, Pidx(c, d))>>
   ELSE <<BootOb(c, d)>>
 
-DrawChoices(c) ==
-  {<<dr, dp>> : dr \in (IF c.bootR THEN Draws(Len(GR0(c))) ELSE {<<>>}),
-                dp \in (IF c.bootP THEN Draws(Len(GP0(c))) ELSE {<<>>})}
+\* outcomes of randint(0, g, size=g): every outcome (level 2); all-first, identity, all-last, one rotation
+\* (level 1); identity and all-first (level 0).  The first sample of a behaviour is enumerated at the level
+\* ArgLevel of the configuration file, later samples at level Min(ArgLevel, 1) - 1 ... see DrawLevel.
+DrawsL(g, lvl) == IF lvl >= 2 THEN [1..g -> 1..g]
+                  ELSE {d \in [1..g -> 1..g] : \/ \A k \in 1..g : d[k] = 1
+                                               \/ \A k \in 1..g : d[k] = k
+                                               \/ lvl = 1 /\ \A k \in 1..g : d[k] = g
+                                               \/ lvl = 1 /\ \A k \in 1..g : d[k] = IF k = 1 THEN g ELSE IF k = g THEN 1 ELSE 1 + (k % g)}
+DrawLevel(i) == IF i = 1 THEN ArgLevel ELSE IF ArgLevel >= 2 THEN 0 ELSE ArgLevel
+DrawChoices(c, i) ==
+  {<<dr, dp>> : dr \in (IF c.bootR THEN DrawsL(Len(GR0(c)), DrawLevel(i)) ELSE {<<>>}),
+                dp \in (IF c.bootP THEN DrawsL(Len(GP0(c)), DrawLevel(i)) ELSE {<<>>})}
 DrawOk(c, d) == /\ Len(d) = 2
                 /\ IF c.bootR THEN IsDraw(d[1], GR0(c)) ELSE d[1] = <<>>
                 /\ IF c.bootP THEN IsDraw(d[2], GP0(c)) ELSE d[2] = <<>>
@@ -307,10 +316,9 @@ Aggregate ==
   /\ UNCHANGED <<smp, draw, sample, rep, sets, theta, pred, pend, pnc, ev, nst, log>> /\ Frozen
 
 \* (guards repeated in front of the quantifiers so that TLC does not build the choice sets in vain)
-ENext == \/ phase \in {"start", "stored"} /\ smp < rc.N /\ \E d \in DrawChoices(rc) : Draw(d)
-         \/ TooSmall
-         \/ phase \in {"drawn", "repdone"} /\ ~SmallSample(rc, draw) /\ \E pp \in SetChoices : MakeSets(pp)
-         \/ Fit \/ Predict \/ Compare \/ Ceiling \/ Store \/ Aggregate
+DrawAny == phase \in {"start", "stored"} /\ smp < rc.N /\ \E d \in DrawChoices(rc, smp + 1) : Draw(d)
+MakeSetsAny == phase \in {"drawn", "repdone"} /\ ~SmallSample(rc, draw) /\ \E pp \in SetChoices : MakeSets(pp)
+ENext == DrawAny \/ TooSmall \/ MakeSetsAny \/ Fit \/ Predict \/ Compare \/ Ceiling \/ Store \/ Aggregate
 ESpec == EInit /\ [][ENext]_allvars
 
 (* ---------------- invariants (the clauses of C04 on the model) ---------------- *)
@@ -428,7 +436,8 @@ TypeOk == /\ phase \in {"start", "drawn", "sets", "fit", "pred", "cmp", "ceil", 
           /\ smp \in 0..rc.N /\ rep \in 0..NRep(rc)
 
 (* ---------------- emission of complete behaviours for replay (S -> I) -------- *)
-EmitRun == (phase = "done" /\ (EmitMod = 1 \/ RandomElement(1..EmitMod) = 1)) =>
+\* (the routines without resampling have few behaviours: always emitted)
+EmitRun == (phase = "done" /\ (EmitMod = 1 \/ rc.routine \in {"fixed", "crossval"} \/ RandomElement(1..EmitMod) = 1)) =>
   PrintT(ToJson([rc |-> rc, log |-> log,
                  cells |-> [k \in 1..NKeys(rc) |-> ev[KeyAt(rc, k)]],
                  nc |-> IF StoresNc(rc) THEN [k \in 1..NNcKeys(rc) |-> nc[NcKeyAt(rc, k)]] ELSE <<nc[<<0, 1, 1>>]>>,
